@@ -416,6 +416,13 @@ fn one_variant<V: Pq>(ctx: &mut Ctx, tier: Tier) {
     let n = V::N;
     let seeds = crate::util::seed_window(n, tier.thorough(), ctx.seed);
     let seeds: Vec<u64> = if tier.thorough() { seeds.into_iter().take(if n == 512 { 48 } else { 12 }).chain(crate::util::seed_window(n, false, 0).into_iter().rev().take(1)).collect() } else { seeds.into_iter().rev().take(if n == 512 { 4 } else { 2 }).collect() };
+    // keys whose public polynomial has a coefficient 0 or q-1 (the ends of the 14-bit field's valid range)
+    let mut seeds = seeds;
+    for s in crate::util::pk_edge_seeds(n).into_iter().take(if tier.thorough() { 4 } else { 2 }) {
+        if !seeds.contains(&s) {
+            seeds.push(s);
+        }
+    }
     let streams: Vec<u64> = vec![20, 21];
     let t = seeds
         .par_iter()
